@@ -335,6 +335,12 @@ class Waiting(State):
             self.done_callback = None
         self._waiting_future = futures.Future()
 
+    def exit(self) -> None:
+        super().exit()
+        if not self._waiting_future.done():
+            # Exited while still waiting, i.e. the process was failed from outside: release execute() if it is in flight
+            self._waiting_future.set_result(NULL)
+
     def interrupt(self, reason: Any) -> None:
         # This will cause the future in execute() to raise the exception, unless the wait is already over (resumed, or
         # interrupted by an earlier request): then the process deals with its interrupt action when execute() returns
